@@ -155,6 +155,39 @@ fn run(ctx: &RunCtx) -> Report {
     let non_mutable = rng.chance(1, 8);
     report.elements = 0;
 
+    if non_mutable && rng.chance(1, 2) {
+        // an announce whose info hash IS the target of a put_mutable that is in flight on this node: the
+        // conflict rules are about mutable items, an announce must never be answered with a concurrency error
+        let item = dht::MutableItem::new(&key, b"in flight", rng.range(1, 9) as i64, salt);
+        let ih = *item.target().as_bytes();
+        let first = sim.put_mutable(writer, item, None);
+        sim.run_for(match rng.below(4) {
+            0 => 0,
+            1 => rng.range(0, 60) * MS,
+            2 => rng.range(60, 900) * MS,
+            _ => rng.range(900, 3000) * MS,
+        });
+        let which = rng.below(2);
+        let second = if which == 0 { sim.announce_peer(writer, ih, Some(700)) } else { sim.announce_signed_peer(writer, ih, [7u8; 32]) };
+        sim.run_ops(&[first, second], sim.now() + 120 * SEC);
+        match res_of(&sim, second) {
+            Res::Panic(p) => report.violate("api-panic", "non-mutable-put-panicked", format!("an announce (kind {which}) on the target of an in-flight put_mutable panicked: {p}")),
+            Res::Pending => report.violate("hang", "non-mutable-put-hang", "an announce on the target of an in-flight put_mutable did not return".into()),
+            Res::Ok | Res::Query => {}
+            other => report.violate("wrong-error", "concurrency-error-for-non-mutable-put", format!("an announce on the target of an in-flight put_mutable returned {other:?}")),
+        }
+        match res_of(&sim, first) {
+            Res::Panic(p) => report.violate("api-panic", "put-mutable-panicked", format!("put_mutable panicked when an announce for its target was issued meanwhile: {p}")),
+            Res::Pending => report.violate("hang", "put-mutable-hang", "put_mutable did not return when an announce for its target was issued meanwhile".into()),
+            _ => {}
+        }
+        report.nontrivial = true;
+        report.probe("announce_on_in_flight_mutable_target", 1);
+        report.fingerprint = crate::rng::key(sim.order_fingerprint(), &[which, family, 77]);
+        report.sample = Some(json!({"announce_on_mutable_target": which, "family": family}));
+        report.plan_dump = Some(format!("announce kind={which} on the target of an in-flight put_mutable, family={family}"));
+        return finish(&sim, report);
+    }
     if non_mutable {
         // overlapping identical immutable puts / announces must never see a concurrency error
         let v = rng.bytes(20);
